@@ -12,7 +12,7 @@ from botocore.exceptions import IncompleteReadError
 from s3transfer.exceptions import CancelledError, FatalError, RetriesExceededError
 
 from .director import STREAM_KINDS, find_tags
-from .scenario import BUCKET, TEMP_RE
+from .scenario import BUCKET, TEMP_RE, temp_leftovers
 
 RETRY_KINDS = ('retry500', 'retryconn')
 
@@ -334,7 +334,9 @@ def mpu_oracle(obs, x):
             continue
         uid = u['id']
         ucalls = [c for c in calls if c['params'].get('UploadId') == uid or c.get('created_upload') == uid]
-        aborts = [c for c in ucalls if c['op'] == 'AbortMultipartUpload']
+        # an abort counts once it has left the client: one rejected locally (parameter validation) never reached the service
+        unsent = [c for c in ucalls if c['op'] == 'AbortMultipartUpload' and not c.get('attempts')]
+        aborts = [c for c in ucalls if c['op'] == 'AbortMultipartUpload' and c.get('attempts')]
         completes = [c for c in ucalls if c['op'] == 'CompleteMultipartUpload']
         if len(completes) > 1:
             out.append(V(f'{x.label}: upload {uid} received {len(completes)} CompleteMultipartUpload calls', **mech, sym='double-complete'))
@@ -346,8 +348,11 @@ def mpu_oracle(obs, x):
                 out.append(V(f'{x.label}: future succeeded but upload {uid} was aborted', **mech, sym='success-aborted'))
         elif x.outcome == 'raised':
             if not aborts:
+                why = ''
+                if unsent:
+                    why = f'; AbortMultipartUpload was called with {sorted(unsent[0]["params"])} and rejected before being sent'
                 out.append(V(f'{x.label}: future failed ({type(x.exc).__name__}) but no abort was issued for upload {uid} '
-                             f'(state {u["state"]})', **mech, sym='orphan',
+                             f'(state {u["state"]}){why}', **mech, sym='orphan', abort_rejected_locally=bool(unsent),
                              exc_is_base=not isinstance(x.exc, Exception)))
             else:
                 ab_n = min(api_begin[c['call_id']]['n'] for c in aborts)
@@ -417,9 +422,7 @@ def fs_oracle(obs, x):
         return out
     mech = base_mech(obs, x)
     mech['preexisting'] = x.prev is not None
-    d = os.path.dirname(x.dest)
-    base = os.path.basename(x.dest)
-    leftovers = [n for n in os.listdir(d) if n.startswith(base + '.') and TEMP_RE.search(n)]
+    leftovers = temp_leftovers(x.dest)
     if x.outcome is not None and leftovers:
         out.append(V(f'{x.label}: temporary file(s) {leftovers} remain after the future is done ({x.outcome})',
                      **mech, sym='temp-left', outcome=x.outcome))
@@ -503,7 +506,19 @@ def callbacks_oracle(obs, x, expect_no_start=False):
             late_fs = [e for e in evs if e['kind'] in ('fs.remove', 'fs.rename', 'fs.write', 'dst.write') and e['n'] > d0]
             if late_fs:
                 out.append(V(f'{x.label}/{s.name}: {late_fs[0]["kind"]} happened after on_done began', **mech, sym='fs-after-on_done'))
-    # a raising on_done must not suppress later subscribers' on_done
+    # order: the transfer's on_queued callbacks all lie before its first on_done ("in order", "only after the outcome is final")
+    dall = [e['n'] for e in evs if e['kind'] == 'cb.on_done']
+    if dall:
+        d0 = min(dall)
+        for e in evs:
+            if e['kind'] != 'cb.on_queued':
+                continue
+            ret = [r['n'] for r in evs if r['kind'] == 'cb.on_queued.ret' and r['sub'] == e['sub'] and r['n'] > e['n']]
+            if e['n'] > d0:
+                out.append(V(f'{x.label}/{e["sub"]}: on_queued ran after on_done had begun', **mech, sym='on_queued-after-on_done'))
+            elif not ret or min(ret) > d0:
+                out.append(V(f'{x.label}/{e["sub"]}: on_done began while on_queued was still running', **mech,
+                             sym='on_done-during-on_queued'))
     return out
 
 
